@@ -195,9 +195,21 @@ class C10(Check):
         else:
             kwargs = {'decrypted_titlekey': titlekey}
         mon, key = [], None
+        own_engine = rng.chance(0.5)            # half of the readers are given no engine and make their own
+        other = None
         try:
-            rd = CDNReader(p + 'tmd', fs=fs, crypto=eng, **kwargs)
+            rd = CDNReader(p + 'tmd', fs=fs, **(dict(kwargs) if own_engine else dict(kwargs, crypto=eng)))
             real = 'ok ' + ' '.join(str(r.cindex) for r in rd.content_info)
+            # a SECOND title (other title id, other title key) is opened next to it and stays open while the first one is read:
+            # readers must not share key state, however they got their engines
+            if ncchs and rng.chance(0.6):
+                tk2, tid2 = rng.rbytes(16), bytes.fromhex('00040000') + rng.rbytes(3) + b'\0'
+                img2 = ncchs[0][1]
+                cid2 = rng.rbytes(4)
+                fs.makedirs('second', recreate=True)
+                fs.writebytes('second/tmd', ciabuild.build_tmd(tid2, [(cid2, 0, 1, len(img2), hashlib.sha256(img2).digest())], rng=rng))
+                fs.writebytes('second/' + cid2.hex(), ciabuild.encrypt_content(tk2, 0, img2))
+                other = CDNReader('second/tmd', fs=fs, decrypted_titlekey=tk2, **({} if rng.chance(0.5) else {'crypto': e.CryptoEngine()}))
         except Exception as ex:  # noqa
             rd = None
             real = 'e:' + exc_name(ex)
@@ -207,11 +219,17 @@ class C10(Check):
         m = drv.ask(('cdn-select', tuple(n.encode() for n in existing) or (), tuple(wire_recs)))
         model = 'ok ' + ' '.join(str(records[i][1]) for i, c in enumerate(m.split(' ')) if c != 'skip') if rd is not None else real
         if rd is not None:
+            # the model's key set-up (theorem C10_cdn_key_sources) on the same arguments: the packed title key, whatever its source
+            mk = drv.ask(('cdn-key', 0, e._b9_keyblob['retail'], tid, kwargs.get('decrypted_titlekey', b''), kwargs.get('titlekey', b''),
+                          kwargs.get('common_key_index', 0), fs.readbytes(p + 'cetk') if keymode == 'ticket' else 'none'))
+            real += ' tk=' + titlekey.hex()
+            model += ' tk=' + mk
+        if rd is not None:
             exp = [records[k][1] for k, there in present if there]
             if [r.cindex for r in rd.content_info] != exp:
                 mon.append(f'content_info {[r.cindex for r in rd.content_info]} != contents present {exp}')
                 key = 'cdn.selection'
-            if eng.key_normal.get(0x40) != titlekey:
+            if not own_engine and other is None and eng.key_normal.get(0x40) != titlekey:
                 mon.append(f'title key from key mode {keymode} differs from the packed one')
                 key = 'cdn.titlekey'
             for k, there in present:
@@ -229,8 +247,18 @@ class C10(Check):
                     elif not nested_ok(rd.contents[records[k][1]], d):
                         mon.append(f'content {records[k][1]}: nested ExeFS files differ')
                         key = 'cdn.nested'
+            if other is not None:
+                try:
+                    if other.open_raw_section(0).read() != ncchs[0][1]:
+                        mon.append('the second title opened next to the first one: decrypted bytes differ from the packed NCCH')
+                        key = 'cdn.raw'
+                except Exception as ex:  # noqa
+                    mon.append(f'the second title opened next to the first one could not be read: {exc_name(ex)}')
+                    key = 'cdn.raw'
+                other.close()
             rd.close()
-        return real, model, mon, key, {'keymode:' + keymode: 1}
+        return real, model, mon, key, {'keymode:' + keymode: 1, 'engine:%s' % ('own' if own_engine else 'given'): 1,
+                                       'second title open alongside:%s' % (other is not None): 1}
 
     # ------------------------------------------------------------------------------------------------------------
     def run_sdplain(self, case, rng, e, tid, ncchs, drv, tmp):
